@@ -59,6 +59,9 @@ class Environment(object):
                 self.conn = Client(addr)
             except Exception as e:
                 if time.time() - start > 5:
+                    # it may still come up later and would then wait for a
+                    # client for ever
+                    self.proc.terminate()
                     raise Exception('Supp server launching timeout exceed: ' + str(e))
 
                 time.sleep(0.3)
